@@ -51,6 +51,10 @@ def spaces(tier):
             if tier == "quick" and p == 4 and name == "U4" and sum(m) % 2:
                 continue        # thin the largest family in the quick tier (every other multiplicity vector)
             out.append([[p, name, list(m)]])
+    if tier == "quick":
+        # degree 5 on [-2.5, 7]: the running knot average of the last Greville point rounds to 7 + 1 ulp, i.e. the
+        # clamp in KnotVector.greville is what keeps the node inside the domain (all of p=5,6 is in the thorough tier)
+        out.append([[5, "S3", [1, 1]]])
     ax2 = AX2_QUICK + (AX2_MORE if tier == "thorough" else [])
     for a, b in itertools.product(ax2, repeat=2):
         out.append([a, b])
